@@ -89,7 +89,7 @@ def run(ctx: Ctx):
             # a run that ends because the tolerance is met (not the iteration limit): with and without a root directory
             errs = sorted(e for e in base['errors'] if e == e and e > 0)
             if len(errs) >= 2:
-                tol = errs[-2] * 1.0001
+                tol = errs[-1] * 1.0001       # met by the first error-driven step: strictly earlier than the iteration limit
                 base_t = one_run(sys_seed, np_seed, niter, {**base_opts, 'max_tol': tol}, kind, tmp)
                 for o_ in ({**base_opts, 'root_dir': True, 'max_tol': tol}, {**base_opts, 'root_dir': True, 'save_interval': 2, 'test_set': True, 'max_tol': tol}):
                     case_t = {'system_seed': sys_seed, 'kind': kind, 'numpy_seed': np_seed, 'iterations': niter, 'options': o_}
